@@ -4,5 +4,5 @@ cd /verif
 out=$(tools/run_all.sh 2>&1)
 bad=$(echo "$out" | grep -v "exit=0")
 if [ -n "$bad" ]; then echo "NOT COMMITTED:"; echo "$bad"; grep -hE "failed obl|OUT-OF|CRASH|UNDEC" /tmp/runall_C*.log | sed -e 's/#[0-9]*//' | cut -c1-220 | sort | uniq -c | head -20; exit 1; fi
-python3-vt tools/gen_manifest.py 2>&1 | grep -v WARNING | tail -1
+python3-vt tools/gen_manifest.py 2>&1 | grep -v WARNING | tail -1; python3 tools/refresh_design_numbers.py
 git add -A && git commit -qm "$1" && echo "committed: $1"
